@@ -592,7 +592,25 @@ func bvArith(op string, a, b *BV) *BV {
 	if a.Signed && (op == "quo" || op == "rem") {
 		sop = "s" + op
 	}
-	return termBV(mkTerm(sop, a.W, ta, tb), a.W, a.Signed)
+	r := termBV(mkTerm(sop, a.W, ta, tb), a.W, a.Signed)
+	// an unsigned remainder by a constant k is below k, an unsigned quotient
+	// by k is at most max/k: the bits above those bounds are constant 0
+	if !a.Signed && oky && y.Sign() > 0 && (op == "rem" || op == "quo") {
+		keep := a.W
+		if op == "rem" {
+			keep = new(big.Int).Sub(y, big.NewInt(1)).BitLen()
+		} else {
+			max := new(big.Int).Sub(new(big.Int).Lsh(big.NewInt(1), uint(a.W)), big.NewInt(1))
+			keep = max.Quo(max, y).BitLen()
+		}
+		if keep < a.W {
+			r = &BV{W: r.W, Signed: r.Signed, Bits: append([]Bit(nil), r.Bits...)}
+			for i := keep; i < r.W; i++ {
+				r.Bits[i] = U.B0
+			}
+		}
+	}
+	return r
 }
 
 // bvEq returns the abstract bit a == b.
